@@ -90,7 +90,8 @@ def monitor(kind, steps):
                     internal_stop, fatal_k = True, expect_fatal(k, "partition consumer")
                 # CancelledError of a consumer: fatal unless the group holds no consumer (not observable without the table): not checked
                 elif k == K_CANCELLED and any(o[0] in (GL.O_LEAVE, O_STARTD) for o in out):
-                    internal_stop = True        # (ignored when the group holds no consumer: then nothing is output)
+                    # (ignored when the group holds no consumer: then nothing is output) - otherwise fatal like any non-Kafka error
+                    internal_stop, fatal_k = True, expect_fatal(k, "partition consumer")
         elif st["delivered"] and internal_stop and not user_stop and c == E_LEAVE and fatal_k is not None:
             if not any(o[0] == O_STARTD and o[2] == 100 + fatal_k for o in out):
                 bad.append((i, "C17_fatal_surfaces_after_leave: LeaveGroup exchange ended, start() Deferred did not fail with %s" % GL.KIND_NAMES[fatal_k]))
@@ -131,8 +132,10 @@ def run(ck):
     o2 = w2steps[-1]["obs"]
     partial = o2[0] == 1 and o2[3] == 1 and o2[6] == 1 and o2[1] == 0 and o2[2] == 0
     ck.cov["F-C17-2_faces_observed"] = {"idle_after_metadata_ValueError": bool(idle), "joined_with_partial_consumers_after_constructor_TypeError": bool(partial)}
-    ck.finding("F-C17-2", idle or partial, "non-Kafka exception escaping _join_and_sync (metadata load raising ValueError) is only logged: "
-               "start() Deferred outstanding, nothing in flight, nothing scheduled, no heartbeat", {"events": wev, "case_kind": wk,
+    ck.finding("F-C17-2", idle or partial, "non-Kafka exception escaping _join_and_sync is only logged: (a) metadata load raising ValueError - start() "
+               "Deferred outstanding, nothing in flight, nothing scheduled, no heartbeat [%s]; (b) Consumer constructor raising inside on_join_complete - member joined "
+               "and heartbeating with part of its assignment unconsumed, start() Deferred outstanding [%s]"
+               % ("observed" if idle else "not observed", "observed" if partial else "not observed"), {"events": wev, "case_kind": wk,
                "impl_trace": GL.pretty_trace(wk, wev, wtr), "obs": o, "second_face_events": w2ev, "second_face_trace": GL.pretty_trace(w2k, w2ev, w2tr),
                "second_face_obs": o2, "replay_op": "history"})
 
@@ -140,11 +143,13 @@ def run(ck):
         ck.coqchk(["AV.Props.C17"])
     ck.assumptions += [
         "coq/Model/Group.v is a hand-written transcription of afkak/_group.py:50-538,673-901 (tie = this run's trace + observation correspondence, not a proof)",
-        "the partition Consumer is represented by its contract (start/shutdown/stop Deferreds) - stub in harness/props/group_lib.py; the KafkaClient by a scripted stand-in whose Deferreds the driver fires",
+        "the partition Consumer is represented by its contract (constructor may raise; start/shutdown/stop Deferreds) - stub in harness/props/group_lib.py; the KafkaClient by a scripted stand-in whose Deferreds the driver fires; already-fired Deferreds are outside the model (consumers failing before start() returns are run implementation-side only, in the closed loop)",
         "Twisted inlineCallbacks / LoopingCall / DeferredList semantics as summarised at the top of Model/Group.v (exercised, not verified)",
-        "timer delays: the model carries WHICH documented delay; the driver checks the float passed to callLater bit for bit against attr/1000.0",
+        "timer delays: the model carries WHICH documented delay; the driver checks the float passed to callLater bit for bit against attr/1000.0 on every history",
         "progress of a generator that waits for the client or for consumers to shut down rests on C11 (every request ends) and C13 (the shutdown Deferred fires)",
-        "C17_never_idle excludes histories in which a non-Kafka exception escaped _join_and_sync (finding F-C17-2) and says nothing after stop(); liveness is in event-order form (the armed call starts the join when the reactor fires it)",
+        "C17_never_idle requires that NO event of the history makes a non-Kafka exception escape _join_and_sync (benign evs; finding F-C17-2, two faces) and says nothing after stop() - also not about a member restarted after a completed stop(), which is inert; C17_retriable_rejoins / C17_fatal_surfaces are about the functions rejoin_after_error / fatal, the five *_is_rejoin_after_error theorems tie the failed replies to them",
+        "bounded rejoin once faults cease is a MONITOR (honest-coordinator closed loop, 80 fair steps), not a theorem; the proved part is in event-order form (an armed call starts the join when the reactor fires it)",
+        "the honest coordinator is a 60-line reading of the Kafka group protocol (member table, generation counter, UNKNOWN_MEMBER_ID / ILLEGAL_GENERATION / REBALANCE_IN_PROGRESS); client.py's partition-lookup retry loop is not executed: its outcome is an event",
     ]
     ck.cov["trusted_base"] += ["harness/props/C17.py (monitors)"]
 
